@@ -155,6 +155,9 @@ def run_case(spec):
             out.label("rich_parameter_set")
             if base == reseeded:
                 out.problem("C07:seed-ignored", f"seeds {wl['random_seed']} and {wl['random_seed'] + 1} give the same workload")
+            for delta in (2 ** 32, 2 ** 31):
+                if base == gen_fingerprint({**wl, "random_seed": wl["random_seed"] + delta}):
+                    out.problem("C07:seed-ignored", f"seeds {wl['random_seed']} and {wl['random_seed'] + delta} give the same workload")
         else:
             out.label("deterministic_parameter_set")
         out.nontrivial = True
